@@ -146,9 +146,32 @@ Print Assumptions deref_only_into_callbacks.
 
 Example deref_only_into_callbacks_nonvacuous : 40 <= List.length (u_derefs uses_gen) /\
   In "routines/spe.hpp" (u_deref_files uses_gen) /\ In "neighbors/vptree.hpp" (u_deref_files uses_gen).
-Proof. vm_compute. repeat split; auto 60. repeat constructor. Qed.
+Proof.
+  split; [vm_compute; repeat constructor|]. split; [vm_compute; auto 60 | vm_compute; auto 60].
+Qed.
 
-(* 10. Regression (F13): with the traits of the pinned commit (ManifoldSculpting built from RequiresFeatures)
+(* 10. The deciders the check evaluates (extracted) on the regenerated tables are sound for EVERY table: whenever
+       they answer true, the Prop-level statements 1, 3 and 4 hold of that table (no finiteness of the table is used). *)
+Theorem routing_decider_sound : forall t, all_routes_ok t = true ->
+  forall order en, valid_chain order en ->
+  user_chain t order en = REmbed (expected_embed_args order en) /\
+  exists cls slots, reach t order en = RObj cls slots /\
+    forall n v, In (n, v) (expected_slots (supplied order en)) -> lookup n slots = Some v.
+Proof. exact all_routes_ok_sound. Qed.
+Print Assumptions routing_decider_sound.
+
+Theorem sufficiency_decider_sound : forall t u, all_sufficient_ok t u = true ->
+  forall m order en, In m (u_methods u) -> valid_chain order en ->
+  ((en = ByMatrix \/ forall k, In k (declared u m) -> In k order) -> run_method t u m order en = Ok) /\
+  (en <> ByMatrix -> (exists k, In k (declared u m) /\ ~ In k order) ->
+     exists msg, run_method t u m order en = Missed msg).
+Proof. exact all_sufficient_ok_meaning. Qed.
+Print Assumptions sufficiency_decider_sound.
+
+Example deciders_nonvacuous : all_routes_ok chain_gen = true /\ all_sufficient_ok chain_gen uses_gen = true.
+Proof. split; vm_compute; reflexivity. Qed.
+
+(* 11. Regression (F13): with the traits of the pinned commit (ManifoldSculpting built from RequiresFeatures)
       the usage property is refuted: supplying exactly the declared callback makes the method touch the
       dummy distance callback. *)
 Theorem uses_refuted_before_F13 :
